@@ -72,13 +72,38 @@ def is_pointer_to_const(t):
 
 
 # --------------------------------------------------------------------- paths
+def inl_ret_sources(f, decl_id):
+    """expressions a helper inlined into f returns through its synthetic result local decl_id"""
+    m = getattr(f, "_inl_rets", None)
+    if m is None:
+        m = {}
+        for st in f.stmts.values():
+            if st.get("inl_return") and st["k"] == "BinaryOperator":
+                ch = f.children(st)
+                if len(ch) == 2:
+                    m.setdefault(st["inl_return"], []).append(ch[1])
+        f._inl_rets = m
+    return m.get(decl_id, [])
+
+
 def unwrap(f, st):
-    """look through value-preserving wrapper nodes"""
-    while st is not None and st["k"] in WRAPPERS:
-        ch = f.children(st)
-        if not ch:
-            break
-        st = ch[0]
+    """look through value-preserving wrapper nodes - and through the result of an inlined helper that has a single
+    return statement (the call then simply denotes the returned expression)"""
+    n = 0
+    while st is not None and n < 60:
+        n += 1
+        if st["k"] in WRAPPERS:
+            ch = f.children(st)
+            if not ch:
+                break
+            st = ch[0]
+            continue
+        if st["k"] == "DeclRefExpr" and st.get("d", {}).get("inl_ret"):
+            src = inl_ret_sources(f, st["d"]["id"])
+            if len(src) == 1:
+                st = src[0]
+                continue
+        break
     return st
 
 
@@ -104,6 +129,10 @@ def path(f, st, depth=0):
     if k == "DeclRefExpr":
         d = st["d"]
         kind = d.get("k")
+        if d.get("inl_ret"):
+            src = inl_ret_sources(f, d["id"])
+            if len(src) == 1:
+                return path(f, src[0], depth + 1)
         if kind == "param":
             return "p:" + d["name"]
         if kind in ("local", "static_local", "binding"):
@@ -204,6 +233,11 @@ def _ref_target(f, name):
                             cache[d["id"]] = init
                         else:
                             cache.setdefault(d["id"], None)
+                    elif d.get("inl") and not d.get("ref") and d.get("init") and d.get("type", "").rstrip().endswith(("*", "*const", "* const")):
+                        # pointer parameter of an inlined helper, bound to the argument: the same pointer value for the whole
+                        # helper body as long as the helper never reassigns it
+                        if _only_rvalue_uses(f, lambda x: x["k"] == "DeclRefExpr" and x["d"].get("id") == d["id"]):
+                            cache[d["id"]] = f.s(d["init"])
                     elif not d.get("ref") and d.get("init") and d.get("k") == "local" and \
                             d.get("type", "").rstrip().endswith(("*", "*const", "* const")):
                         # a pointer local that is a never-reassigned copy of a member pointer this function only reads
@@ -785,10 +819,10 @@ class Engine:
     def locks(self, f, inherited=None):
         if inherited:
             return LockAnalysis(self, f, inherited)
-        la = self._la.get((f.unit.name, f.id))
+        la = self._la.get((f.unit.name, f.uid))
         if la is None:
             la = LockAnalysis(self, f)
-            self._la[(f.unit.name, f.id)] = la
+            self._la[(f.unit.name, f.uid)] = la
         return la
 
     # ---------------------------------------------------------------- A2
@@ -796,7 +830,7 @@ class Engine:
         """summary of a function returning a lock-carrying object: list of
         alternatives {data, mutex, mode, st, blocking, cond}; paths are in the
         callee's own name space (this / p:param).  None = not understood."""
-        key = (g.unit.name, g.id)
+        key = (g.unit.name, g.uid)
         if key in self._summ:
             return self._summ[key]
         if key in self._summ_busy:
@@ -830,7 +864,7 @@ class Engine:
     def _return_cond(self, g, r):
         """(path, value) of the single boolean member whose value is known at return statement r"""
         from .typestate import NonNull
-        key = ("nn", g.unit.name, g.id)
+        key = ("nn", g.unit.name, g.uid)
         nn = self._summ.get(key)
         if nn is None:
             nn = NonNull(g)
@@ -898,6 +932,15 @@ class Engine:
             if s is None:
                 return None
             return [dict(a, cond=cond if cond else a.get("cond")) for a in s]
+        if k == "DeclRefExpr" and e.get("d", {}).get("inl_ret"):
+            out = []
+            for src in inl_ret_sources(g, e["d"]["id"]):
+                a = self._summ_expr(g, la, src, g.pos_of(src) or pos, cond)
+                if a is None:
+                    return None
+                rc = self._return_cond(g, g.par(src)) if g.par(src) is not None else None
+                out += [dict(x, cond=x.get("cond") or rc) for x in a] if rc is not None else a
+            return out or None
         if k == "DeclRefExpr":
             p = path(g, e)
             v = la.state_at(pos).get(p) if pos else None
